@@ -378,6 +378,12 @@ class SeriesOps:
             return ("call", "str." + name, T.C(obj)) + tuple(to_term(p) for p in pos)
         if isinstance(obj, PyTuple):
             return ("call", "tuple." + name, to_term(obj))
+        # symbolic sets: "do the two collections share an element" in one canonical form, whichever way it is asked
+        if isinstance(obj, tuple) and obj and isinstance(obj[0], str) and name in ("intersection", "isdisjoint") and len(pos) == 1 and not kw:
+            strip = lambda x: x[1] if isinstance(x, tuple) and len(x) == 2 and x[0] in ("set", "frozenset", "list", "tuple") else x
+            a_, b_ = sorted((strip(obj), strip(to_term(pos[0]) if not isinstance(pos[0], Ser) else ("valuesof", pos[0].term, pos[0].ctx))), key=repr)
+            ov = ("overlap", a_, b_)
+            return ("intersection", a_, b_) if name == "intersection" else T.not_(ov)
         return ("call", f"{type(obj).__name__}.{name}", to_term(obj)) + tuple(to_term(p) for p in pos)
 
     # ------------------------------------------------------------------ externals
